@@ -120,7 +120,24 @@ def oracle(case):
     return Info(nt=nt, classes=classes, sample={"classes": case["classes"], "value": repr(v)[:200], "path": path})
 
 
+def _concurrent_cases(tier):
+    from props import c15
+    return c15.concurrent_cases(tier)
+
+
+def _concurrent_oracle(case):
+    """The same shared bean/container dumped by two threads (e.g. two handler threads of a pooled
+    server returning a shared object): every single preemption at a distinct source line"""
+    from props import c15
+    try:
+        return c15.oracle_concurrent(case)
+    except Violation as v:
+        raise Violation("C07/" + v.signature.split("/", 1)[1], v.message, v.detail)
+
+
 SUBS = [
+    Sub("concurrent-dump", _concurrent_oracle, enumerate=_concurrent_cases, shards={"quick": 4, "thorough": 4},
+        what="shared objects dumped by two threads at once (deterministic scheduler, single-preemption sweep)"),
     Sub("objects", oracle, strategy=lambda tier: cases(),
         budget={"quick": 20000, "thorough": 300000}, shards={"quick": 16, "thorough": 16},
         time_cap={"quick": 100, "thorough": 1500},
@@ -132,4 +149,5 @@ CLAIM = {
     "text": "Generated-input search over class definitions (dict/slots/inheritance/custom serialisation/local vs module classes), enum classes, Decimals and their positions inside containers and bean fields; each value travels through jsonclass directly, through JSON text, through jsonrpc.dumps/loads and through a proxy/dispatcher pair in both versions and must come back as an instance of the same class with equal fields.",
     "note": "Trusts the structural comparator and class synthesis in vlib/classgen.py; in-process transport stands for the network (C01/C17 cover the wire).",
     "design_ref": "DESIGN.md section 4, C07; R3",
+    "engine": "E1+E2",
 }
